@@ -280,5 +280,5 @@ EvE(th)   == IF th = 1 THEN EvOps(AllEv, {0, 99, 3}, {0, 1, 2})
              ELSE {C("push", 0, 2, ""), C("set", 99, 1, "")}
 MaxDefsE(th) == 2
 MaxEvEq(th)  == IF th = 1 THEN 2 ELSE 1
-MaxEvEt(th)  == IF th = 1 THEN 4 ELSE 2
+MaxEvEt(th)  == IF th = 1 THEN 3 ELSE 1
 =============================================================================
